@@ -23,6 +23,8 @@ import (
 type manyCase struct {
 	N   int    `json:"n"`
 	Via string `json:"via"` // evalstring | evalfile | pages | mixed
+	// Failing: N calls that fail before evaluation come first (and one between any two calls of the passes)
+	Failing bool `json:"failing,omitempty"`
 }
 
 func init() {
@@ -61,6 +63,25 @@ func c16Many(c *harness.Check, cs manyCase) string {
 			return w.Body.String()
 		}
 		firstErrorPage := errorPage()
+		// calls that fail before anything is evaluated (unknown name, data of an unsupported kind, the
+		// reserved key) are no input of later calls either, however many there are
+		failing := func(i int) {
+			switch i % 4 {
+			case 0:
+				tpl.String(fmt.Sprintf("nosuch%d", i), data)
+			case 1:
+				tpl.String("p0", map[string]any{"name": "N", "bad": make(chan int)})
+			case 2:
+				tpl.Response(httptest.NewRecorder(), "nosuch", nil)
+			default:
+				tpl.Response(httptest.NewRecorder(), "p0", map[string]any{"loop": 1})
+			}
+		}
+		if cs.Failing {
+			for i := 0; i < cs.N; i++ {
+				failing(i)
+			}
+		}
 		call := func(k, pass int) string {
 			via := cs.Via
 			if via == "mixed" {
@@ -99,6 +120,9 @@ func c16Many(c *harness.Check, cs manyCase) string {
 		}
 		for pass := 0; pass < 3; pass++ {
 			for i, k := range order(pass) {
+				if cs.Failing {
+					failing(i + pass)
+				}
 				if got := call(k, pass); got != want(k) {
 					failure = fmt.Sprintf("pass %d, call %d (source %d of %d, %s): got %q, its own result is %q", pass+1, i+1, k, cs.N, cs.Via, clip(got, 200), want(k))
 					return
@@ -123,7 +147,7 @@ func c16Many(c *harness.Check, cs manyCase) string {
 
 func TestC16_ManySources(t *testing.T) {
 	c := harness.New(t, "C16", "many-sources",
-		"N distinct sources for N in {1, 2, 3, 7..9, 15..17, 31..33, 63..65, 100, 127..129, 255..257} (quick) plus {511..513, 1000, 1023..1025} (thorough), evaluated one after the other through EvaluateString, EvaluateFile, as pages of one loaded directory, or all three in turn; then all again in the same order and in reverse order; a failing Response (built-in error page, debug on) before, every 97 calls and after. Every call must give the result of its own source (known in closed form) and the error page must stay the same. Exhaustive over N x entry point. Non-trivial: N >= 2. Distinct by construction.")
+		"N distinct sources for N in {1, 2, 3, 7..9, 15..17, 31..33, 63..65, 100, 127..129, 255..257} (quick) plus {511..513, 1000, 1023..1025} (thorough), evaluated one after the other through EvaluateString, EvaluateFile, as pages of one loaded directory, or all three in turn; then all again in the same order and in reverse order; a failing Response (built-in error page, debug on) before, every 97 calls and after; in every other case N calls that fail before anything is evaluated (unknown names, data of an unsupported kind, the reserved key loop; String and Response) come first, and one more between any two calls. Every call must give the result of its own source (known in closed form) and the error page must stay the same. Exhaustive over N x entry point. Non-trivial: N >= 2. Distinct by construction.")
 	defer c.Finish()
 	var ns []int
 	ns = append(ns, 1, 2, 3, 100)
@@ -140,8 +164,8 @@ func TestC16_ManySources(t *testing.T) {
 			if !harness.Mine(idx) {
 				continue
 			}
-			cs := manyCase{N: n, Via: via}
-			c.CaseEnum(n >= 2, "via:"+via)
+			cs := manyCase{N: n, Via: via, Failing: idx%2 == 0}
+			c.CaseEnum(n >= 2, "via:"+via, fmt.Sprintf("failing-calls-first:%v", cs.Failing))
 			if idx%7 == 0 {
 				c.Sample(cs)
 			}
